@@ -133,6 +133,17 @@ def modify (d : Params) (k : Str) (f : Param → Param) : Params :=
 def set (d : Params) (k : Str) (v : Param) : Params :=
   if has d k then modify d k (fun _ => v) else d ++ [(k, v)]
 
+/-- `map` that stops at the first exception -/
+def mapE {α β : Type} (f : α → Except String β) : List α → Except String (List β)
+  | [] => .ok []
+  | a :: as =>
+    match f a with
+    | .error e => .error e
+    | .ok b =>
+      match mapE f as with
+      | .error e => .error e
+      | .ok bs => .ok (b :: bs)
+
 /-! ## The type tables -/
 
 def lookup (tbl : List (Str × Str)) (k : Str) : Option Str := (tbl.find? (·.1 == k)).map (·.2)
@@ -223,51 +234,79 @@ def inferTyp (p : Param) (name : Str) (nullable : Option Bool) (t₀ : Typ) : Ex
         | .union _ _ => .error "AttributeError"
         | _ => .ok (nullable, scalarArg p.xSqlType t.render)
 
+/-- `LargeBinary` is appended when no argument is an SQLAlchemy type (`found_type`) -/
+def addFallback (args : List Arg) : List Arg :=
+  if args.any Arg.isSqlType then args else args ++ [.name c!"LargeBinary"]
+
 /-- `_handle_column_args`: `(args, nullable)` -/
-def handleColumnArgs (p : Param) (includeName : Bool) (name : Str) : Except String (List Arg × Option Bool) := do
+def handleColumnArgs (p : Param) (includeName : Bool) (name : Str) : Except String (List Arg × Option Bool) :=
   let args₀ : List Arg := if includeName then [.const (setValue (.str name))] else []
-  let (args₁, nullable) ← (match p.typ with
-    | none => pure (args₀, none)
-    | some none => pure (args₀, some (p.default == some (.str NoneStr)))
-    | some (some t) => do
-      let (n, a) ← inferTyp p name none t
-      pure (args₀ ++ [a], n) : Except String (List Arg × Option Bool))
-  let args₂ := if args₁.any Arg.isSqlType then args₁ else args₁ ++ [.name c!"LargeBinary"]
-  return (args₂, nullable)
+  match p.typ with
+  | none => .ok (addFallback args₀, none)
+  | some none => .ok (addFallback args₀, some (p.default == some (.str NoneStr)))
+  | some (some t) =>
+    match inferTyp p name none t with
+    | .error e => .error e
+    | .ok (n, a) => .ok (addFallback (args₀ ++ [a]), n)
+
+/-- a description split at its leading marker, as `param_to_sqlalchemy_column_calls` does it -/
+structure DocSplit where
+  /-- `doc.startswith("[PK]")` -/
+  pk : Bool
+  /-- the text between `[FK(` and `)]` when the description starts with `[FK` (and not with `[PK]`) -/
+  fk : Option Str
+  /-- the description behind the marker, left-stripped (the whole description when there is no marker) -/
+  text : Str
+deriving DecidableEq, Repr
+
+def splitDoc (d : Str) : DocSplit :=
+  if startsWith d c!"[PK]" then { pk := true, fk := none, text := lstrip (d.drop 4) }
+  else if startsWith d c!"[FK" then
+    let e : Int := findI d [']'] + 1                       -- `end = doc.find("]") + 1`
+    { pk := false, fk := some (slice d (some 4) (some (e - 2))), text := lstrip (slice d (some e) none) }
+  else { pk := false, fk := none, text := d }
+
+/-- zero or one keyword -/
+def optKw (k : Str) : Option Val → List (Str × Val)
+  | some v => [(k, v)]
+  | none => []
+
+/-- the value of the `comment=` keyword: the text without trailing dots, if anything is left -/
+def commentOf (text : Str) : Option Val :=
+  let r := rstripChars text ['.']
+  if r.isEmpty then none else some (.str (setValueStr r))
+
+/-- the value of the `default=` keyword -/
+def emitDefault : Val → Val
+  | .code s => .code s
+  | d => if d == .str NoneStr then .none else setValue d
+
+/-- the value of a constraint keyword: an AST as it is, anything else through `set_value` -/
+def emitConstraint : Val → Val
+  | .code s => .code s
+  | v => setValue v
+
+/-- `_handle_column_keywords` (+ the `primary_key` keyword added before it), in the order the code appends them;
+    the description is appended as `doc=` and renamed to `comment` before the list is sorted -/
+def columnKws (ds : DocSplit) (p : Param) (nullable : Option Bool) : List (Str × Val) :=
+  optKw c!"primary_key" (if ds.pk then some (.bool true) else none) ++
+  (optKw c!"comment" (commentOf ds.text) ++
+  (optKw c!"server_default" (p.serverDefault.map emitConstraint) ++
+  (optKw c!"default" (p.default.map emitDefault) ++
+   optKw c!"nullable" (nullable.map Val.bool))))
+
+/-- `nullable` after the marker branches: a non-`None` default forces `nullable=False` unless a marker is present -/
+def finalNullable (ds : DocSplit) (p : Param) (nullable : Option Bool) : Option Bool :=
+  if !ds.pk && ds.fk.isNone && (match p.default with | some d => !inNoneTypes d | none => false) then some false else nullable
 
 /-- `param_to_sqlalchemy_column_calls((name, param), include_name)` (the single call it returns) -/
-def paramToColumn (includeName : Bool) (np : Str × Param) : Except String ColumnCall := do
-  let (name, p) := np
-  let (args, nullable) ← handleColumnArgs p includeName name
-  let hasDefault := p.default.isSome
-  let doc₀ := p.doc.getD []
-  let pk := startsWith doc₀ c!"[PK]"
-  let fk := startsWith doc₀ c!"[FK"
-  -- marker handling
-  let fkEnd : Int := findI doc₀ [']'] + 1
-  let doc₁ : Str :=
-    if pk then lstrip (doc₀.drop 4)
-    else if fk then lstrip (slice doc₀ (some fkEnd) none)
-    else doc₀
-  let args := if !pk && fk then args ++ [.fk (setValueStr (slice doc₀ (some 4) (some (fkEnd - 2))))] else args
-  let nullable := if !pk && !fk && hasDefault && !(match p.default with | some d => inNoneTypes d | none => false)
-                  then some false else nullable
-  -- `_handle_column_keywords`
-  let kws₀ : List (Str × Val) := if pk then [(c!"primary_key", .bool true)] else []
-  let stripped := rstripChars doc₁ ['.']
-  -- appended as `doc=…`, renamed to `comment` at the end
-  let kws₁ := if stripped.isEmpty then kws₀ else kws₀ ++ [(c!"comment", .str (setValueStr stripped))]
-  let kws₂ := match p.serverDefault with
-    | some v => kws₁ ++ [(c!"server_default", match v with | .code s => .code s | v => setValue v)]
-    | none => kws₁
-  let kws₃ := match p.default with
-    | some (.code s) => kws₂ ++ [(c!"default", .code s)]
-    | some d => kws₂ ++ [(c!"default", if d == .str NoneStr then .none else setValue d)]
-    | none => kws₂
-  let kws₄ := match nullable with
-    | some b => kws₃ ++ [(c!"nullable", .bool b)]
-    | none => kws₃
-  return { args := args, kws := sortKws kws₄ }
+def paramToColumn (includeName : Bool) (np : Str × Param) : Except String ColumnCall :=
+  match handleColumnArgs np.2 includeName np.1 with
+  | .error e => .error e
+  | .ok (args, nullable) =>
+    let ds := splitDoc (np.2.doc.getD [])
+    .ok { args := args ++ (match ds.fk with | some v => [Arg.fk (setValueStr v)] | none => []),
+          kws := sortKws (columnKws ds np.2 (finalNullable ds np.2 nullable)) }
 
 /-! ## `ensure_has_primary_key` -/
 
@@ -316,7 +355,7 @@ structure Parsed where
   default : Option Val := none
   /-- `server_default` (also copied to `x_typ.sql.constraints.server_default`) -/
   serverDefault : Option Val := none
-  /-- the junk key `None` that positional constants after the name end up under -/
+  /-- the junk key `None` that positional arguments the parser does not understand end up under -/
   noneKey : Option Val := none
   /-- `comment`, left in the dict only when a `doc=` keyword is present as well -/
   comment : Option Val := none
@@ -333,6 +372,13 @@ structure Raw where
   xSqlType : Option Str := none
   fk : Option Str := none
   noneKey : Option Val := none
+deriving DecidableEq, Repr
+
+/-- the text in front of the last `.` -/
+def beforeLastDot (s : Str) : Str :=
+  match rfind s ['.'] with
+  | some i => s.take i
+  | none => s
 
 /-- `column_parse_arg` + `column_parse_extra_sql` for one `(idx, arg)`; later entries override earlier ones -/
 def parseArg (r : Raw) (idx : Nat) (a : Arg) : Except String Raw :=
@@ -345,20 +391,29 @@ def parseArg (r : Raw) (idx : Nat) (a : Arg) : Except String Raw :=
   | .fk v => .ok { r with fk := some v }
   | .array inner => .ok { r with typ := some (c!"ARRAY(" ++ (inner ++ [')'])) }
   | .const v => if idx == 0 then .ok r else .ok { r with noneKey := some (getValue v) }
-  | .expr _ => .error "unmodelled"
+  | .expr code =>
+    -- source text that is not an identifier: a call, a subscript or an attribute access
+    if contains code ['('] then
+      let f := code.takeWhile (· != '(')
+      if isIdentifier f && f != c!"Enum" && f != c!"ForeignKey" then .ok { r with typ := some code }   -- `to_code(arg)`
+      else .error "unmodelled"
+    else if contains code ['['] then
+      -- `get_value(Subscript)` = its `.value`, an AST
+      if idx == 0 then .ok r else .ok { r with noneKey := some (.code (code.takeWhile (· != '['))) }
+    else if contains code ['.'] then
+      -- `get_value(Attribute)` = its `.value`, an AST
+      if idx == 0 then .ok r else .ok { r with noneKey := some (.code (beforeLastDot code)) }
+    else .error "unmodelled"
 
 def parseArgs : Raw → Nat → List Arg → Except String Raw
   | r, _, [] => .ok r
-  | r, i, a :: as => do
-    let r' ← parseArg r i a
-    parseArgs r' (i + 1) as
+  | r, i, a :: as =>
+    match parseArg r i a with
+    | .error e => .error e
+    | .ok r' => parseArgs r' (i + 1) as
 
 /-- `dict(…)[k]` over the keyword pairs: the last one wins -/
 def kwGet (kws : List (Str × Val)) (k : Str) : Option Val := (kws.reverse.find? (·.1 == k)).map (·.2)
-
-def valStr? : Val → Option Str
-  | .str s => some s
-  | _ => none
 
 /-- Python truthiness of a constant -/
 def truthy : Val → Bool
@@ -375,46 +430,66 @@ def foldMarker (short : Str) (doc : Option Str) : Str :=
   | some d => if d.isEmpty then '[' :: (short ++ [']']) else '[' :: (short ++ (c!"] " ++ d))
   | none => '[' :: (short ++ [']'])
 
+/-- the description before folding: an explicit `doc=` wins over `comment=`; only `str` values are modelled -/
+def rawDoc (kws : List (Str × Val)) : Except String (Option Str) :=
+  match (match kwGet kws c!"doc" with | some d => some d | none => kwGet kws c!"comment") with
+  | none => .ok none
+  | some (.str s) => .ok (some s)
+  | some _ => .error "unmodelled"
+
+/-- `[PK]` then `[FK(…)]` folding (`if longname in _param`: presence of the key, not its truth) -/
+def foldDoc (hasPK : Bool) (fk : Option Str) (doc : Option Str) : Option Str :=
+  let d₁ := if hasPK then some (foldMarker c!"PK" doc) else doc
+  match fk with
+  | some v => some (foldMarker (c!"FK(" ++ (v ++ [')'])) d₁)
+  | none => d₁
+
+/-- `nullable` handling: `not nullable or _handle_null()` -/
+def applyNullable (nullable : Option Val) (typ : Option Str) : Except String (Option Str) :=
+  match nullable with
+  | some v =>
+    if truthy v then
+      match typ with
+      | some t => .ok (some (if startsWith t c!"Optional[" then t else c!"Optional[" ++ (t ++ [']'])))
+      | none => .error "KeyError"
+    else .ok typ
+  | none => .ok typ
+
+/-- `get_value(call.args[0])` -/
+def columnName (args : List Arg) : Except String Str :=
+  match args.head? with
+  | some (.const (.str s)) => .ok s
+  | some (.name id) => if isIdentifier id then .ok id else .error "unmodelled"
+  | some _ => .error "unmodelled"
+  | none => .error "IndexError"
+
+/-- a `.` is appended to the description of a column that has a default, unless its name ends in `kwargs` -/
+def addDot (name : Str) (hasDefault : Bool) (doc : Option Str) : Option Str :=
+  match doc with
+  | some d => if hasDefault && !endsWith name c!"kwargs" then some (d ++ ['.']) else some d
+  | none => none
+
 /-- `column_call_to_param(call)`: `(name, ParamVal)`; `.error` = exception class (or `unmodelled`) -/
-def columnToParam (c : ColumnCall) : Except String (Str × Parsed) := do
-  if !(c.args.length < 4) then throw "AssertionError"
-  let raw ← parseArgs {} 0 c.args
-  let kws := c.kws.map (fun kv => (kv.1, getValue kv.2))
-  -- doc: an explicit `doc=` wins over `comment=`
-  let doc₀ : Option Val := match kwGet kws c!"doc" with
-    | some d => some d
-    | none => kwGet kws c!"comment"
-  let doc₀ ← (match doc₀ with
-    | none => pure none
-    | some (.str s) => pure (some s)
-    | some _ => throw "unmodelled" : Except String (Option Str))
-  -- PK then FK folding (`if longname in _param`: presence, not truth)
-  let doc₁ := if (kwGet kws c!"primary_key").isSome then some (foldMarker c!"PK" doc₀) else doc₀
-  let doc₂ := match raw.fk with
-    | some v => some (foldMarker (c!"FK(" ++ (v ++ [')'])) doc₁)
-    | none => doc₁
-  -- nullable
-  let typ ← (match kwGet kws c!"nullable" with
-    | some v =>
-      if truthy v then
-        match raw.typ with
-        | some t => pure (some (if startsWith t c!"Optional[" then t else c!"Optional[" ++ (t ++ [']'])))
-        | none => throw "KeyError"
-      else pure raw.typ
-    | none => pure raw.typ : Except String (Option Str))
-  -- the name
-  let name ← (match c.args.head? with
-    | some (.const (.str s)) => pure s
-    | some (.name id) => if isIdentifier id then pure id else throw "unmodelled"
-    | some _ => throw "unmodelled"
-    | none => throw "IndexError" : Except String Str)
-  let default := kwGet kws c!"default"
-  let doc₃ := match default, doc₂ with
-    | some _, some d => if endsWith name c!"kwargs" then some d else some (d ++ ['.'])
-    | _, d => d
-  return (name, { typ := typ, xSqlType := raw.xSqlType, doc := doc₃, default := default,
-                  serverDefault := kwGet kws c!"server_default", noneKey := raw.noneKey,
-                  comment := if (kwGet kws c!"doc").isSome then kwGet kws c!"comment" else none })
+def columnToParam (c : ColumnCall) : Except String (Str × Parsed) :=
+  if !(c.args.length < 4) then .error "AssertionError" else
+  match parseArgs {} 0 c.args with
+  | .error e => .error e
+  | .ok raw =>
+    let kws := c.kws.map (fun kv => (kv.1, getValue kv.2))
+    match rawDoc kws with
+    | .error e => .error e
+    | .ok doc₀ =>
+      let doc₂ := foldDoc (kwGet kws c!"primary_key").isSome raw.fk doc₀
+      match applyNullable (kwGet kws c!"nullable") raw.typ with
+      | .error e => .error e
+      | .ok typ =>
+        match columnName c.args with
+        | .error e => .error e
+        | .ok name =>
+          let default := kwGet kws c!"default"
+          .ok (name, { typ := typ, xSqlType := raw.xSqlType, doc := addDot name default.isSome doc₂, default := default,
+                       serverDefault := kwGet kws c!"server_default", noneKey := raw.noneKey,
+                       comment := if (kwGet kws c!"doc").isSome then kwGet kws c!"comment" else none })
 
 /-! ## The three emissions and their parsers (columns and table name) -/
 
@@ -450,40 +525,47 @@ structure ClassDef where
   body : List Stmt
 deriving DecidableEq, Repr
 
-/-- the columns every emitter produces: `map(param_to_sqlalchemy_column_calls, ensure_has_primary_key(params, force_pk_id).items())` -/
+/-- the columns every emitter produces:
+    `map(param_to_sqlalchemy_column_calls, ensure_has_primary_key(params, force_pk_id).items())` -/
 def emitCols (includeName force : Bool) (ps : Params) : Except String (List (Str × ColumnCall)) :=
-  (ensurePK force ps).mapM (fun kv => do
-    let c ← paramToColumn includeName kv
-    pure (kv.1, c))
+  mapE (fun kv => match paramToColumn includeName kv with
+                  | .error e => .error e
+                  | .ok c => .ok (kv.1, c)) (ensurePK force ps)
 
 /-- `emit.sqlalchemy_table(ir, name=name, table_name=tableName, force_pk_id=force)`: `(assignment target, call)`.
     `ensure_valid_identifier` is the identity on the identifiers the harness uses and is not modelled. -/
-def emitTableNamed (ir : IR) (name : Str) (tableName : Option Str) (force : Bool) : Except String (Str × TableCall) := do
-  let cols ← emitCols true force ir.params
-  let target := if name != c!"config_tbl" || ir.name.isEmpty then name else ir.name
-  pure (target, { tname := setValueStr (tableName.getD name), metaName := c!"metadata", cols := cols.map (·.2) })
+def emitTableNamed (ir : IR) (name : Str) (tableName : Option Str) (force : Bool) : Except String (Str × TableCall) :=
+  match emitCols true force ir.params with
+  | .error e => .error e
+  | .ok cols =>
+    .ok (if name != c!"config_tbl" || ir.name.isEmpty then name else ir.name,
+         { tname := setValueStr (tableName.getD name), metaName := c!"metadata", cols := cols.map (·.2) })
 
 /-- as the command line calls it (`gen`, `exmod`): `sqlalchemy_table(ir, table_name=ir["name"], force_pk_id=force)` -/
 def emitTable (force : Bool) (ir : IR) : Except String (Str × TableCall) :=
   emitTableNamed ir c!"config_tbl" (some ir.name) force
 
 /-- `emit.sqlalchemy(ir, table_name=ir["name"], force_pk_id=force)`; `hasDoc` = a docstring statement is emitted -/
-def emitClass (force : Bool) (hasDoc : Bool) (ir : IR) : Except String ClassDef := do
-  let cols ← emitCols false force ir.params
-  pure { name := ir.name,
-         body := (if hasDoc then [Stmt.docstring] else []) ++
-                 [Stmt.assignStr c!"__tablename__" (setValueStr ir.name)] ++
-                 cols.map (fun kc => Stmt.assignCol kc.1 kc.2) ++
-                 [Stmt.funcDef c!"__repr__"] }
+def emitClass (force : Bool) (hasDoc : Bool) (ir : IR) : Except String ClassDef :=
+  match emitCols false force ir.params with
+  | .error e => .error e
+  | .ok cols =>
+    .ok { name := ir.name,
+          body := (if hasDoc then [Stmt.docstring] else []) ++
+                  (Stmt.assignStr c!"__tablename__" (setValueStr ir.name) ::
+                  (cols.map (fun kc => Stmt.assignCol kc.1 kc.2) ++
+                  [Stmt.funcDef c!"__repr__"])) }
 
 /-- `emit.sqlalchemy_hybrid(ir, table_name=ir["name"], force_pk_id=force)`: `force_pk_id` is handed on to
     `sqlalchemy_table(name="__table__", table_name=table_name or ir["name"], force_pk_id=force_pk_id)` -/
-def emitHybrid (force : Bool) (hasDoc : Bool) (ir : IR) : Except String ClassDef := do
-  let (target, tbl) ← emitTableNamed ir c!"__table__" (some ir.name) force
-  pure { name := ir.name,
-         body := (if hasDoc then [Stmt.docstring] else []) ++
-                 [Stmt.assignStr c!"__tablename__" (setValueStr ir.name), Stmt.assignTable target tbl,
-                  Stmt.funcDef c!"__repr__", Stmt.funcDef c!"create_from_attr"] }
+def emitHybrid (force : Bool) (hasDoc : Bool) (ir : IR) : Except String ClassDef :=
+  match emitTableNamed ir c!"__table__" (some ir.name) force with
+  | .error e => .error e
+  | .ok (target, tbl) =>
+    .ok { name := ir.name,
+          body := (if hasDoc then [Stmt.docstring] else []) ++
+                  [Stmt.assignStr c!"__tablename__" (setValueStr ir.name), Stmt.assignTable target tbl,
+                   Stmt.funcDef c!"__repr__", Stmt.funcDef c!"create_from_attr"] }
 
 def Stmt.target? : Stmt → Option Str
   | .assignStr t _ => some t
@@ -495,6 +577,16 @@ def Stmt.target? : Stmt → Option Str
 def mergeName (target : Str) (c : ColumnCall) : ColumnCall :=
   { c with args := .const (setValue (.str target)) :: c.args }
 
+/-- is this statement one of those `sqlalchemy_class_to_table` turns into a column?  Every assignment except
+    `__tablename__ = …` (so `_id = Column(…)`, `__mapper_args__ = …` … all count) -/
+def isColumnStmt (s : Stmt) : Bool := s.target?.isSome && s.target? != some c!"__tablename__"
+
+/-- `_merge_name_to_column` on one statement of the class body -/
+def stmtColumn : Stmt → Except String ColumnCall
+  | .assignCol t c => .ok (mergeName t c)
+  | .assignTable _ _ => .error "unmodelled"      -- a `Table(…)` bound to another name than `__table__`
+  | _ => .error "AttributeError"                 -- `assign.value.args` of a constant
+
 /-- `sqlalchemy_class_to_table(class_def)`: either the `__table__ = …` assignment itself (hybrid), or a `Table`
     call built from **every** assignment of the body except `__tablename__ = …` -/
 def classToTable (cls : ClassDef) : Except String (Sum (Str × TableCall) TableCall) :=
@@ -504,12 +596,9 @@ def classToTable (cls : ClassDef) : Except String (Sum (Str × TableCall) TableC
   | none =>
     match cls.body.find? (fun s => s.target? == some c!"__tablename__") with
     | some (.assignStr _ nm) =>
-      let rest := cls.body.filter (fun s => s.target?.isSome && s.target? != some c!"__tablename__")
-      (do
-        let cols ← rest.mapM (fun s => match s with
-          | .assignCol t c => pure (mergeName t c)
-          | _ => throw "AttributeError")        -- `assign.value.args` of a constant / junk
-        pure (.inr { tname := setValueStr nm, metaName := c!"metadata_obj", cols := cols }))
+      match mapE stmtColumn (cls.body.filter isColumnStmt) with
+      | .error e => .error e
+      | .ok cols => .ok (.inr { tname := setValueStr nm, metaName := c!"metadata_obj", cols := cols })
     | some _ => .error "unmodelled"
     | none => .error "StopIteration"
 
@@ -524,51 +613,65 @@ structure ParsedIR where
 deriving DecidableEq, Repr
 
 /-- `parse.sqlalchemy_table(Call)`: the name is the first argument -/
-def parseTableCall (t : TableCall) : Except String ParsedIR := do
-  if !(t.cols.length > 0) then throw "AssertionError"     -- `assert len(call.args) > 2`
-  let ps ← t.cols.mapM columnToParam
-  pure { name := t.tname, params := dictOfPairs ps }
+def parseTableCall (t : TableCall) : Except String ParsedIR :=
+  if !(t.cols.length > 0) then .error "AssertionError" else      -- `assert len(call.args) > 2`
+  match mapE columnToParam t.cols with
+  | .error e => .error e
+  | .ok ps => .ok { name := t.tname, params := dictOfPairs ps }
 
 /-- `parse.sqlalchemy_table(Assign)`: the binding must carry the table's name -/
 def parseTable (a : Str × TableCall) : Except String ParsedIR :=
   if a.2.tname != a.1 then .error "AssertionError" else parseTableCall a.2
 
 /-- `parse.sqlalchemy(ClassDef)` = `parse.sqlalchemy_hybrid(ClassDef)`: a hybrid class is unwrapped to its call -/
-def parseClass (cls : ClassDef) : Except String ParsedIR := do
-  match ← classToTable cls with
-  | .inl (_, tbl) => parseTableCall tbl
-  | .inr tbl => parseTableCall tbl
+def parseClass (cls : ClassDef) : Except String ParsedIR :=
+  match classToTable cls with
+  | .error e => .error e
+  | .ok (.inl (_, tbl)) => parseTableCall tbl
+  | .ok (.inr tbl) => parseTableCall tbl
+
+/-- one `Column('name', …)` of a table as a class-body assignment -/
+def columnStmt (c : ColumnCall) : Except String Stmt :=
+  match c.args with
+  | .const (.str nm) :: rest => .ok (Stmt.assignCol nm { c with args := rest })
+  | _ => .error "unmodelled"
 
 /-- `sqlalchemy_table_to_class(name = Table(…))` (every `Column` call of the table becomes an assignment) -/
-def tableToClass (a : Str × TableCall) : Except String ClassDef := do
-  let cols ← a.2.cols.mapM (fun c => match c.args with
-    | .const (.str nm) :: rest => pure (Stmt.assignCol nm { c with args := rest })
-    | _ => throw "unmodelled")
-  pure { name := a.1, body := Stmt.assignStr c!"__tablename__" (setValueStr a.2.tname) :: cols }
+def tableToClass (a : Str × TableCall) : Except String ClassDef :=
+  match mapE columnStmt a.2.cols with
+  | .error e => .error e
+  | .ok cols => .ok { name := a.1, body := Stmt.assignStr c!"__tablename__" (setValueStr a.2.tname) :: cols }
+
+/-- `>>=` on `Except String` written out (keeps statements readable and unfoldable) -/
+def andThen {α β : Type} (x : Except String α) (f : α → Except String β) : Except String β :=
+  match x with
+  | .error e => .error e
+  | .ok a => f a
+
+/-! ## Primary keys of an emission -/
+
+/-- does this `Column(…)` call carry `primary_key=True`? -/
+def isPKCol (c : ColumnCall) : Bool := c.kws.any (fun kv => kv.1 == c!"primary_key" && kv.2 == .bool true)
+
+/-- number of `primary_key=True` columns of an emission -/
+def countPK (cs : List ColumnCall) : Nat := cs.countP isPKCol
 
 /-! ## The normalisation a column goes through (right-hand side of the round-trip theorem) -/
 
-/-- the comment text a description is stored as: trailing dots removed; nothing when empty -/
+/-- the comment text a description is stored as: trailing dots removed, nothing when empty -/
 def normText (s : Str) : Option Str :=
   let r := rstripChars s ['.']
   if r.isEmpty then none else some (setValueStr r)
 
-/-- what a description comes back as: marker kept in front, one space behind it, trailing dots dropped,
+/-- what a description comes back as: marker kept in front with one blank behind it, trailing dots dropped,
     and a single `.` appended when the column has a default (unless the name ends in `kwargs`) -/
 def normDoc (name : Str) (doc : Option Str) (hasDefault : Bool) : Option Str :=
-  let d := doc.getD []
-  let folded : Option Str :=
-    if startsWith d c!"[PK]" then some (foldMarker c!"PK" (normText (lstrip (d.drop 4))))
-    else if startsWith d c!"[FK" then
-      let e : Int := findI d [']'] + 1
-      some (foldMarker (c!"FK(" ++ (setValueStr (slice d (some 4) (some (e - 2))) ++ [')']))
-                       (normText (lstrip (slice d (some e) none))))
-    else normText d
-  match folded with
-  | some f => if hasDefault && !endsWith name c!"kwargs" then some (f ++ ['.']) else some f
-  | none => none
+  let ds := splitDoc (doc.getD [])
+  addDot name hasDefault (foldDoc ds.pk (ds.fk.map setValueStr) (normText ds.text))
 
+/-- what a default comes back as: `None` is the IR's `NoneStr`; a quoted string loses its quotes -/
 def normVal : Val → Val
+  | .none => .str NoneStr
   | .str s => .str (setValueStr s)
   | v => v
 
